@@ -10,5 +10,33 @@ CHECKS = {
         "note": "distance evaluated in correctly rounded double arithmetic; finite values only; not a proof.",
     },
 }
+PBT = "property-based testing (Hypothesis)"
+CHECKS.update({
+    "C12": {"category": "exploration", "technique": PBT + " of a scripted sampler against a sequential reference model of the dedup loop",
+            "text": "Generated (history, scripted draw sequence, batch size, pass budget) cases over a tiny alphabet so that repeats "
+                    "are the norm; the real BaseSampler.sample is compared with an independent reference model on requested sizes, "
+                    "returned multiset, untouched positions and give-up condition. No counterexample in 6e3 (quick) / 3e5 (thorough) cases.",
+            "note": "exact float equality of rows (integer alphabet); BaseSampler.sample only (stateful samplers disable dedup)."},
+    "C13": {"category": "exploration", "technique": PBT + " against an exact-rational radical inverse, trial-division primes and an independently computed golden-ratio vector",
+            "text": "halton() compared with exact rational arithmetic for start indices up to 2^16+2^12 and 40 bases; prime cache "
+                    "histories against trial division; sampler objects on a 2^-17 grid where the sequence index is decoded from the "
+                    "output, checking start range, gap-free continuation across batches, split == joint, and re-seed resets.",
+            "note": "sampled, not exhaustive, over (seed, dimension, batch sizes); tolerance half a grid step for snapped coordinates."},
+    "C15": {"category": "exploration", "technique": "exhaustive enumeration of a value lattice + " + PBT + " against an independent ordered validator and exact-rational grid rule",
+            "text": "Every specification with two bound sub-lists of length 0-2 over a 7-value lattice and precision lists over a "
+                    "5-value lattice (lists and ndarrays) is checked for the documented exception class, its payload and the documented "
+                    "order of checks (exhaustive on that lattice; 3-parameter sub-lattice in the thorough tier); random specs with 1-6 "
+                    "parameters check the grid against an exact-rational end-point rule.",
+            "note": "exhaustive only over the stated lattice; huge well-formed grids (>5e6 points) are not constructed."},
+    "C19": {"category": "exploration", "technique": PBT + " of operation histories against a reference model and a twin agent",
+            "text": "Histories of policy/learn/reseed on MABEpsilonGreedy are compared step by step with a reference implementation of the "
+                    "incremental update rule and with a twin agent (determinism); reward sequences on MABCalibrationEnv are compared "
+                    "with the relative-improvement rule.",
+            "note": "1e-12 relative tolerance; exploration probabilities are not tested statistically."},
+    "C20": {"category": "exploration", "technique": PBT + " with definitional oracles (HP first-order condition via a hand-written stencil)",
+            "text": "Generated series of length 3-2000 in seven shapes and six scales, lambda over ten decades: cycle+trend=series, "
+                    "the HP optimality condition, definitions of the three derived filters, finiteness of the 18 moments.",
+            "note": "residual tolerance scales with (1+16*lambda); log filters on positive series only."},
+})
 NOT_APPLICABLE = {p: "check not built yet in this session (design in DESIGN.md section 3); will be claimed once its harness exists"
                   for p in ALL if p not in CHECKS}
